@@ -68,7 +68,7 @@ prop("C03", level="proof",
 prop("C13", level="proof",
      level_text="Unbounded proof for module rules: Rule.assert_applies raises ImproperlyConfigured / RuleInconsistency / ImpossibleMatch / NetworkXError exactly in the "
                 "incomplete, contradictory, unmatched-regex and unknown-name cases (exact raises-iff contracts down to the graph searches), so none of them yields a verdict; "
-                "every builder method is under contract, hence the claim holds after every finite call sequence. Layer rules, diagram rules and entry-point options: "
+                "every builder method is under contract, hence the claim holds after every finite call sequence. Which names ARE nodes is proved on the graph constructor (NetworkxGraph.__init__: exactly the flattened modules, their dotted ancestors and the dotted ancestors of importers; never an importee that is not one of these), modulo the bounded truncation. Layer rules, diagram rules and entry-point options: "
                 "bounded stand-ins against specification automata.",
      level_note=_RULE_NOTE + " Bounded (not proved): call chains of LayerRule / DiagramRule / get_evaluable_architecture option validation.",
      explanation="No verdict from undefined or incomplete specifications: exact exceptional postconditions + builder contracts.",
@@ -112,16 +112,15 @@ prop("C02", level="other",
      level_text="Mixed. PROVED (string view): ImportConverter.convert yields exactly the imports of the import statements nested at ANY depth in ANY statement list (statements, except "
                 "handlers, match cases in any field) of the scanned files -- worklist invariant for unbounded nesting under the statement-tree unfolding schema; ImportConverter._convert: one "
                 "import per alias of 'import a.b.c [as x]', 'from P import n' names P.n when that is a scanned module and P otherwise, relative forms per alias with the same sub-module "
-                "preference; _adjust_with_root_prefix; get_parent_modules = dotted ancestors. BOUNDED: what ast.parse / ast.iter_child_nodes deliver for each grammar position, relative-import "
-                "resolution (rel_importee) and the composition down to graph edges: every statement-list position of the running interpreter's grammar x 24 import forms, all edges of every scan.",
+                "preference; _adjust_with_root_prefix; get_parent_modules = dotted ancestors; the Import classes (AbsoluteImport.__init__ with the inlined Import.__init__, the importer / importee / parent-list getters, RelativeImport._calculate_importee relative to the stored parent list). GRAPH CONSTRUCTION (names opaque, over the assumed networkx.DiGraph model, modulo the still bounded truncation flat = _flatten_graph_node): NetworkxGraph.__init__ / _initialise / _add_all_modules_as_nodes / _add_edges_within_module_hierarchy are under contract: the node set is EXACTLY the flattened names of the modules, of their dotted ancestors and of the dotted ancestors of importers -- no node is ever created for an importee or an importee's ancestor; every edge joins two nodes and is a hierarchy pair (flattened strict ancestor -> flattened ancestor-or-self of one module / importer / importee) or the flattened (importer, importee) pair of an import record; an edge with inherits=False is always such an import pair, inherits=True only sits on hierarchy pairs; every import between two differing flattened modules / module ancestors is an edge. _add_edges_within_module_hierarchy is characterised exactly (which adjacent pairs of parent_modules + [child] are linked, in list order). NOT proved: WHICH hierarchy pairs end up linked (the order of get_parent_modules' list is not under contract), the final inherits value of a pair that is both an import pair and a hierarchy pair, and the composition with the converter's records. BOUNDED: what ast.parse / ast.iter_child_nodes deliver for each grammar position, relative-import "
+                "resolution (rel_importee: RelativeImport.__init__ keeps an assumed constructor contract) and the composition down to graph edges: every statement-list position of the running interpreter's grammar x 24 import forms, all edges of every scan.",
      level_note="Assumed: ast node fields, ast.iter_child_nodes returns the directly nested statement-like nodes of every field, RelativeImport's importee function. " + _BND_NOTE + "ast.parse trusted.",
      technique=_BND_TECH, explanation="import statements vs edges", roots=["ImportConverter.convert", "ImportConverter._convert", "ImportConverter._adjust_with_root_prefix", "get_parent_modules"],
      bounded=[_b("projects", "bounded_import_edges")], trusted_base=_TB)
 prop("C04", level="other",
      level_text="Mixed. PROVED (string view): Parser.parse registers exactly one module per non-excluded directory and per non-excluded .py file reached from module_path through non-excluded "
                 "directories (worklist invariant for unbounded trees and ANY enumeration order, under the tree-unfolding schema); _parse_file / _file_should_be_parsed; get_parent_modules = "
-                "dotted ancestors; _get_internal_module_prefix, _get_all_internal_modules, _adjust_with_root_prefix (both import spellings). BOUNDED: module naming from paths, graph construction "
-                "(nodes, hierarchy edges), sub-directory scan = restriction of the whole-root scan (also sibling scans in fresh processes), module-object entry point: random directory trees "
+                "dotted ancestors; _get_internal_module_prefix, _get_all_internal_modules, _adjust_with_root_prefix (both import spellings). GRAPH CONSTRUCTION (names opaque, over the assumed networkx.DiGraph model, modulo the still bounded truncation flat = _flatten_graph_node): NetworkxGraph.__init__ / _initialise / _add_all_modules_as_nodes / _add_edges_within_module_hierarchy are under contract: the node set is EXACTLY the flattened names of the modules, of their dotted ancestors and of the dotted ancestors of importers -- no node is ever created for an importee or an importee's ancestor; every edge joins two nodes and is a hierarchy pair (flattened strict ancestor -> flattened ancestor-or-self of one module / importer / importee) or the flattened (importer, importee) pair of an import record; an edge with inherits=False is always such an import pair, inherits=True only sits on hierarchy pairs; every import between two differing flattened modules / module ancestors is an edge. _add_edges_within_module_hierarchy is characterised exactly (which adjacent pairs of parent_modules + [child] are linked, in list order). NOT proved: WHICH hierarchy pairs end up linked (the order of get_parent_modules' list is not under contract), the final inherits value of a pair that is both an import pair and a hierarchy pair, and the composition with the converter's records. BOUNDED: module naming from paths, the COMPLETENESS of the hierarchy edges (every module linked to its direct parent), sub-directory scan = restriction of the whole-root scan (also sibling scans in fresh processes), module-object entry point: random directory trees "
                 "through the real entry points.",
      level_note="Assumed: pathlib (is_dir, iterdir, resolve as identity, suffix, str), open/read, ast.parse, Parser._get_module_name as the function mod_name. " + _BND_NOTE +
                 "Input validity: no x.py next to a directory x, component names without '.'.",
@@ -137,10 +136,10 @@ prop("C08", level="proof",
      bounded=[_b("projects", "bounded_exclusions")], trusted_base=_TB)
 prop("C09", level="other",
      level_text="Mixed. PROVED: the limit arithmetic (_add_extra_levels_to_limit_if_root_and_module_path_differ: raised by the number of dotted components between root_path and module_path), "
-                "NetworkxGraph._create_node / _create_edge over flattened names (no edge to an unknown module, self edges dropped after flattening, single edge per pair). BOUNDED: the truncation "
+                "NetworkxGraph._create_node / _create_edge over flattened names (no edge to an unknown module, self edges dropped after flattening, single edge per pair). GRAPH CONSTRUCTION (names opaque, over the assumed networkx.DiGraph model, modulo the still bounded truncation flat = _flatten_graph_node): NetworkxGraph.__init__ / _initialise / _add_all_modules_as_nodes / _add_edges_within_module_hierarchy are under contract: the node set is EXACTLY the flattened names of the modules, of their dotted ancestors and of the dotted ancestors of importers -- no node is ever created for an importee or an importee's ancestor; every edge joins two nodes and is a hierarchy pair (flattened strict ancestor -> flattened ancestor-or-self of one module / importer / importee) or the flattened (importer, importee) pair of an import record; an edge with inherits=False is always such an import pair, inherits=True only sits on hierarchy pairs; every import between two differing flattened modules / module ancestors is an edge. _add_edges_within_module_hierarchy is characterised exactly (which adjacent pairs of parent_modules + [child] are linked, in list order). NOT proved: WHICH hierarchy pairs end up linked (the order of get_parent_modules' list is not under contract), the final inherits value of a pair that is both an import pair and a hierarchy pair, and the composition with the converter's records. BOUNDED: the truncation "
                 "itself (_flatten_graph_node: split/join) and the quotient / verdict-preservation claims: for random trees, every module_path depth and every k, the level-limited architecture is compared with the truncation quotient of the full one, and rule "
                 "verdicts on names at or above the limit are compared between the two.",
-     level_note=_BND_NOTE, technique=_BND_TECH, explanation="quotient graph", roots=["_add_extra_levels_to_limit_if_root_and_module_path_differ", "NetworkxGraph._create_edge", "NetworkxGraph._create_node"], bounded=[_b("projects", "bounded_level_limit")], trusted_base=_TB)
+     level_note=_BND_NOTE, technique=_BND_TECH, explanation="quotient graph", roots=["_add_extra_levels_to_limit_if_root_and_module_path_differ", "NetworkxGraph._create_edge", "NetworkxGraph._create_node", "NetworkxGraph.__init__"], bounded=[_b("projects", "bounded_level_limit")], trusted_base=_TB)
 prop("C10", level="proof",
      level_text="Proved (string view) for every stage that implements the external options: ExternalImportFilter.filter keeps every import whose importee is internal in EVERY "
                 "configuration and drops an external import iff the importee or one of its dotted ancestors matches a pattern; ImporteeModuleCalculator adds exactly the importees and their "
